@@ -58,7 +58,7 @@ Section Optimiser.
     let inner' := N.min (b_inner b) (b_steps b) in
     let f :=
       match b_kt_ratio b, b_kt_finish b with
-      | Some r, _ => n1 - r
+      | Some r, _ => nmax n0 (n1 - r)          (* f64::max(0., 1. - ratio) *)
       | None, Some fin =>
           if andb (n0 <? b_kt_start b) (negb (N.eqb inner' 0))
           then fpow (fin / b_kt_start b) (n1 / ofN (loops_of (b_steps b) inner'))
